@@ -1,4 +1,5 @@
 import J5V.Bcl.Parser
+import J5V.Bcl.Utf8
 /-!
 # BCL schema walker model — types (core only)
 
@@ -23,8 +24,26 @@ open J5V.Bcl
 /-- a Go string (bytes) -/
 abbrev Str := List Nat
 
-/-- bytes of an ASCII / UTF-8 Lean string literal -/
-def str (s : String) : Str := s.toUTF8.toList.map UInt8.toNat
+/-- equality of byte strings, decided directly on `Nat`s. Same answers as the generic
+`List.hasDecEq` (a `Decidable` proposition has one truth value); it only exists because the generic
+instance compares elements through a closure, which dominated the driver's run time (schema, block
+and property lookups by name). -/
+def strDecEq : (a b : Str) → Decidable (a = b)
+  | [], [] => isTrue rfl
+  | [], _ :: _ => isFalse (fun h => nomatch h)
+  | _ :: _, [] => isFalse (fun h => nomatch h)
+  | a :: as, b :: bs =>
+    if h : a = b then
+      match strDecEq as bs with
+      | isTrue h2 => isTrue (by rw [h, h2])
+      | isFalse h2 => isFalse (fun h3 => h2 (List.cons.inj h3).2)
+    else isFalse (fun h3 => h (List.cons.inj h3).1)
+
+instance (priority := high) instDecidableEqStr : DecidableEq Str := strDecEq
+
+/-- the UTF-8 bytes of a Lean string (through the model's own encoder rather than `String.toUTF8`,
+so that the kernel can evaluate it: `decide` / `rfl` over `j5Env` see plain data) -/
+def str (s : String) : Str := J5V.Bcl.encodeRunes (s.toList.map Char.toNat)
 
 /-- for messages and the dump: bytes back to a Lean string (property names are ASCII) -/
 def Str.show (s : Str) : String := String.ofList (s.map Char.ofNat)
